@@ -30,7 +30,9 @@ CLAUSES = (
     'single-key writer survives the table rewrite (re-inserted from the state '
     'its run-time writers keep current) and has a restore branch; '
     'shutdown writes event timers and the task pool and flushes the queue '
-    'before closing the DB. Not decided: equality of the continued run with '
+    'before closing the DB. '
+    'The flow counter is restored from MAX(flow_num) of the DB. '
+    'Not decided: equality of the continued run with '
     'an uninterrupted one.')
 
 TP = 'task_pool'
